@@ -20,3 +20,36 @@ func Int() int             { return int(Int31n(1 << 30)) }
 func Int31() int32         { return Int31n(1<<31 - 1) }
 func Uint32() uint32       { return uint32(Int31n(1<<31 - 1)) }
 func Float64() float64     { return 0 }
+
+// Source / Rand: generators created by the program.  A *Rand is not safe for concurrent use in the
+// standard library; its state is therefore one instrumented memory location, so that the race
+// monitor reports unsynchronised sharing.  Values still come from the harness.
+type Source interface {
+	Int63() int64
+	Seed(seed int64)
+}
+
+type src struct{ state int64 }
+
+func (s *src) Int63() int64 {
+	*vrt.Wr(&s.state, "rand.Source state", "rand.Source.Int63@rand.go:0")++
+	return int64(Int31n(1<<31 - 1))
+}
+func (s *src) Seed(seed int64) { *vrt.Wr(&s.state, "rand.Source state", "rand.Source.Seed@rand.go:0") = seed }
+
+func NewSource(seed int64) Source { return &src{state: seed} }
+
+type Rand struct{ s Source }
+
+func New(s Source) *Rand { return &Rand{s: s} }
+
+func (r *Rand) touch()               { r.s.Int63() }
+func (r *Rand) Seed(seed int64)      { r.s.Seed(seed) }
+func (r *Rand) Int63() int64         { return r.s.Int63() }
+func (r *Rand) Int31() int32         { r.touch(); return Int31() }
+func (r *Rand) Int31n(n int32) int32 { r.touch(); return Int31n(n) }
+func (r *Rand) Intn(n int) int       { r.touch(); return Intn(n) }
+func (r *Rand) Int63n(n int64) int64 { r.touch(); return Int63n(n) }
+func (r *Rand) Int() int             { r.touch(); return Int() }
+func (r *Rand) Uint32() uint32       { r.touch(); return Uint32() }
+func (r *Rand) Float64() float64     { r.touch(); return 0 }
